@@ -28,7 +28,7 @@ pub fn def() -> PropDef {
                overflowing the type / 40 digits, DIMACS literal or group beyond the declared count, variable count \
                above the type's maximum, AIGER literal above 2M+1, odd or zero defined literal, symbol index \
                beyond its section, fused tokens, invalid UTF-8 inside a symbol name, unknown or misspelt BTOR2 \
-               keyword, zero node id, multi-byte binary AIGER delta code above its reference code), parsed one-shot and under a generated feed: the error's line must be the \
+               keyword, zero node id, multi-byte binary AIGER delta code above its reference code, AIGER number with leading zeros), parsed one-shot and under a generated feed: the error's line must be the \
                token's line and its column must lie on the corrupted token; one case in four is repeated behind a 1..23-byte \
                preamble that the caller consumes before LineReader::new (line 1 starts at the current position). Part C \
                (LineReader used directly): a hand-written word scanner over generated lines (words of 1..3000 bytes, so \
@@ -190,7 +190,7 @@ pub fn check_bounds(c: &BoundsCase, obs: &mut Obs) -> CheckResult {
 // ---------------------------------------------------------------------------------------------
 // Part B
 
-pub const CORRUPTIONS: [&str; 16] = [
+pub const CORRUPTIONS: [&str; 17] = [
     "garbage-token",
     "digits-then-garbage",
     "overflow-40-digits",
@@ -207,6 +207,7 @@ pub const CORRUPTIONS: [&str; 16] = [
     "btor2-zero-id",
     "aiger-latch-init-invalid",
     "aiger-binary-delta-too-large",
+    "aiger-leading-zero",
 ];
 
 #[derive(Serialize, Deserialize, Clone, Debug, PartialEq, Eq, Hash)]
@@ -506,6 +507,14 @@ fn corrupt(c: &ExactCase) -> Option<Corrupted> {
                     w
                 }
             };
+            Some(replace(bytes, t, &with))
+        }
+        "aiger-leading-zero" => {
+            // AIGER numbers are written without leading zeros: "07", "00" are rejected on the token
+            let Doc::Aiger(_) = &c.doc else { return None };
+            let t = pick_tok(&nums, c.pick)?;
+            let mut with = vec![b'0'; 1 + (c.arg as usize % 3)];
+            with.extend_from_slice(&bytes[t.start..t.end]);
             Some(replace(bytes, t, &with))
         }
         "aiger-binary-delta-too-large" => {
